@@ -195,6 +195,9 @@ type c09Pair struct {
 	Cut            int  // byte offset at which A ends
 	AFirst         bool // A is the first input
 	Auto           bool // decoders obtained through DecoderFor
+	// CutB > 0: the other file was killed too, at this byte offset (CSV: at the record boundary before it);
+	// the reader keeps calling after the first error, as a consumer that logs decode errors and goes on does
+	CutB int `json:",omitempty"`
 }
 
 func runC09Pair(c c09Pair) error {
@@ -202,9 +205,23 @@ func runC09Pair(c c09Pair) error {
 	if err != nil {
 		return err
 	}
-	db, _, err := vgen.EncodeAll(vgen.CodecByName(c.CodecB), c.B)
+	db, endsB, err := vgen.EncodeAll(vgen.CodecByName(c.CodecB), c.B)
 	if err != nil {
 		return err
+	}
+	wantB := c.B
+	if c.CutB > 0 && c.CutB < len(db) {
+		kB := sort.SearchInts(endsB, c.CutB+1)
+		if c.CodecB == "csv" { // CSV: cuts between records only
+			c.CutB = 0
+			if kB > 0 {
+				c.CutB = endsB[kB-1]
+			}
+		}
+		if kB == 0 {
+			return nil // (a first record cut short is in no format: nothing to combine)
+		}
+		db, wantB = db[:c.CutB], c.B[:kB]
 	}
 	cut := c.Cut
 	if cut > len(da) {
@@ -232,10 +249,19 @@ func runC09Pair(c c09Pair) error {
 		dec = vegeta.NewRoundRobinDecoder(decB, decA)
 	}
 	var gotA, gotB []vegeta.Result
-	for i := 0; i <= len(c.A)+len(c.B)+2; i++ {
+	errs := 0
+	for i := 0; i <= len(c.A)+len(c.B)+8; i++ {
 		var r vegeta.Result
 		if err := dec.Decode(&r); err != nil {
-			break
+			// the end, or the torn tail of a file: every further call has to say so again (a nil error would hand the
+			// caller a record nobody wrote)
+			if errs++; errs > 6 {
+				break
+			}
+			continue
+		}
+		if errs > 0 && c.CutB == 0 {
+			return fmt.Errorf("a %s file cut at byte %d read round-robin with an intact %s file: Decode reported an error and then returned another record (%+v)", c.CodecA, c.Cut, c.CodecB, r)
 		}
 		if r.Attack == "A" {
 			gotA = append(gotA, r)
@@ -247,8 +273,19 @@ func runC09Pair(c c09Pair) error {
 	if d := vgen.DiffResults(c.A[:kA], gotA); d != "" {
 		return fmt.Errorf("%s: records of the killed file: %s", what, d)
 	}
-	if d := vgen.DiffResults(c.B, gotB); d != "" {
+	if c.CutB > 0 {
+		what += fmt.Sprintf(", itself cut at byte %d (%d complete), Decode called 7 more times after the first error", c.CutB, len(wantB))
+	}
+	if d := vgen.DiffResults(wantB, gotB); d != "" {
 		return fmt.Errorf("%s: records of the intact file: %s", what, d)
+	}
+	// a record written without response headers comes back without (Result.Equal tells a nil header set from an empty one)
+	for _, pair := range [][2][]vegeta.Result{{c.A[:kA], gotA}, {wantB, gotB}} {
+		for i := range pair[0] {
+			if pair[0][i].Headers == nil && pair[1][i].Headers != nil {
+				return fmt.Errorf("%s: record %d of attack %q was written without headers and comes back with an empty header set that is not nil: not Equal to what was written", what, i, pair[0][i].Attack)
+			}
+		}
 	}
 	return nil
 }
@@ -274,6 +311,10 @@ func TestC09Pair(t *testing.T) {
 		}
 		if c.Cut < 0 {
 			c.Cut = 0
+		}
+		if rapid.IntRange(0, 3).Draw(t, "bothcut") == 0 {
+			db, _, _ := vgen.EncodeAll(vgen.CodecByName(c.CodecB), c.B)
+			c.CutB = rapid.IntRange(1, max(1, len(db)-1)).Draw(t, "cutb")
 		}
 		k := sort.SearchInts(ends, c.Cut+1)
 		inside := k < len(ends) && (k == 0 || ends[k-1] != c.Cut)
